@@ -189,12 +189,17 @@ def run(rep, tier, root=None):
             rep.check(ok, "Q4.generator-scope", "%s: %s" % (f.fq, norm_text(st)[:70] if st is not None else "?"),
                       "generator is not bound to a local or an instance attribute", f.where(n))
         # Q7
-        for dnode in f.node.decorator_list:
-            txt = norm_text(dnode)
-            if any(k in txt.split("(")[0].split(".")[-1] for k in MEMO_DECORATORS):
-                rep.violation("Q7.no-memoisation", "%s: @%s" % (f.fq, txt), "memoised screen functions return the first result again", f.where(dnode))
-        if s.global_mut or s.global_rebind:
-            rep.violation("Q7.no-module-state", f.fq, "function writes module-level state %s" % sorted(list(s.global_mut) + list(s.global_rebind)), f.where())
+        from ..fx import is_memoised
+        from ..common import memo_findings
+        if is_memoised(f):
+            if s.rng_draws or s.rng_global:
+                rep.violation("Q7.no-memoisation", "%s: memoised random function" % f.fq,
+                              "a memoised function that draws random numbers returns its first draw again", f.where())
+            for msg, where in memo_findings(ix, f):
+                rep.violation("Q7.no-memoisation", "%s: memoised: %s" % (f.fq, msg[:100]), msg, where)
+        from ..common import global_state_findings
+        for gname, msg in global_state_findings(ix, f):
+            rep.violation("Q7.no-module-state", "%s: %s" % (f.fq, gname), msg, f.where())
     # module-level generators / class-level generators in the two modules
     for mn in (PS, IPS):
         m = ix.module(mn)
